@@ -135,6 +135,141 @@ class StrToInt(Harness):
         return None
 
 
+class StrToFloat(Harness):
+    """which real number str_to_float computes (exact-real model): decimal and lower-case scientific text, mixed in one batch"""
+    name = "str_to_float"
+    functions = ("bionumpy.io.strops.str_to_float", "_decimal_str_to_float", "_scientific_str_to_float", "_build_power_array (dots)")
+    bounds = {"quick": "batches of 1-3 texts from the shapes d, dd.d, -d.dd, .d? (no), d.de+d, -dde-d, de+dd with symbolic digits and signs; "
+                       "exponents |e| <= 19",
+              "thorough": "more shapes per batch, 3-4 rows"}
+    assumptions = ("exact-real model: the value is compared as a rational number, IEEE rounding (a few ulp) and range effects are outside the claim",)
+
+    # shape: string over {s: sign -, S: sign +/-, d: digit, '.': dot, 'e': exponent mark}
+    SHAPES = ["d", "dd", "d.d", "dd.d", "d.dd", "sd.d", "sdd", "d.ded", "dde-d", "sd.de+d", "de+dd", "d.de-d", "ded"]
+
+    def skeletons(self, tier, seed):
+        S = self.SHAPES
+        out = [dict(shapes=[a]) for a in S]
+        pairs = [("d.d", "dd"), ("sd.d", "d.ded"), ("dde-d", "d"), ("d.dd", "sd.de+d"), ("ded", "de+dd"), ("d", "d.de-d")]
+        out += [dict(shapes=list(p)) for p in pairs] + [dict(shapes=["d.d", "dde-d", "sdd"])]
+        # the ends of the double range (literal exponents): the value must still be the text's value
+        out += [dict(shapes=[a]) for a in ("d.ddem307", "d.ddddem305", "dep307", "d.dep300", "sd.ddddddddem300")] + [dict(shapes=["d.d", "d.ddem307"])]
+        if tier == "thorough":
+            out += [dict(shapes=[a, b]) for a in S for b in S if (a, b) not in pairs][::3]
+            out += [dict(shapes=["sd.de+d", "d", "d.dd", "de+dd"])]
+        return out
+
+    def inputs(self, skel, V):
+        for r, sh in enumerate(skel["shapes"]):
+            for j, ch in enumerate(sh):
+                if ch == "d":
+                    V.int(f"c{r}_{j}", 48, 57)
+                elif ch == "s":
+                    V.int(f"c{r}_{j}", 45, 45)
+                elif ch in "+-":
+                    v = V.int(f"c{r}_{j}", 43, 45); V.assume(v.t != 44)
+
+    LIT = {"m": 45, "p": 43}       # literal minus / plus; digits 0-9 in a shape are literal digits
+
+    def _bytes(self, skel, x, r):
+        out = []
+        for j, ch in enumerate(skel["shapes"][r]):
+            out.append(x[f"c{r}_{j}"] if ch in "ds+-" else self.LIT.get(ch, ord(ch)))
+        return out
+
+    def call(self, skel, x, ctx):
+        from bionumpy.io.strops import str_to_float
+        from bionumpy.encoded_array import EncodedArray, EncodedRaggedArray, BaseEncoding
+        rows = [self._bytes(skel, x, r) for r in range(len(skel["shapes"]))]
+        data = ctx.arr([c for r in rows for c in r], "uint8")
+        before = ctx.lst(data)
+        res = str_to_float(EncodedRaggedArray(EncodedArray(data, BaseEncoding), [len(r) for r in rows]))
+        return dict(values=ctx.lst(res), input_before=before, input_after=ctx.lst(data))
+
+    def _value(self, sh, g, z):
+        """value of the text: returns a z3 Real term (z) or a Fraction"""
+        from fractions import Fraction
+        mant, exp = (sh.split("e") + [None])[:2] if "e" in sh else (sh, None)
+        pos = 0
+        neg = None
+        digs, ndec, seen_dot = [], 0, False
+        for j, ch in enumerate(mant):
+            if ch == "s":
+                neg = True
+            elif ch == "d" or ch.isdigit():
+                digs.append(g(j) if ch == "d" else ord(ch))
+                ndec += seen_dot
+            elif ch == ".":
+                seen_dot = True
+        m = 0
+        for d in digs:
+            m = m * 10 + (d - 48)
+        val = (z3.ToReal(m) if z else Fraction(m)) / (10 ** ndec)
+        if neg:
+            val = -val
+        if exp is not None:
+            off = len(mant) + 1
+            esign = None
+            ed = []
+            for j, ch in enumerate(exp):
+                if ch in "+-":
+                    esign = g(off + j)
+                elif ch in "mp":
+                    esign = self.LIT[ch]
+                else:
+                    ed.append(g(off + j) if ch == "d" else ord(ch))
+            e = 0
+            for d in ed:
+                e = e * 10 + (d - 48)
+            if z and isinstance(e, int):
+                p = z3.RealVal(10 ** e)
+                val = (val / p if esign == 45 else val * p) if isinstance(esign, int) or esign is None else z3.If(esign == 45, val / p, val * p)
+            elif z:
+                # 10**e for e in 0..99 as an ite chain over the concrete values of e
+                p = z3.RealVal(1)
+                for k in range(10 ** len(ed) - 1, 0, -1):
+                    p = z3.If(e == k, z3.RealVal(10 ** k), p)
+                val = z3.If(esign == 45, val / p, val * p) if esign is not None else val * p
+            else:
+                val = val / Fraction(10) ** e if esign == 45 else val * Fraction(10) ** e
+        return val
+
+    def post(self, skel, x, out):
+        if isinstance(out, Exc):
+            return False
+        from symnp.core import T
+        conj = []
+        if len(out["values"]) != len(skel["shapes"]):
+            return False
+        for r, sh in enumerate(skel["shapes"]):
+            g = T(out["values"][r])
+            g = z3.ToReal(g) if not z3.is_real(g) else g
+            v = self._value(sh, lambda j: x[f"c{r}_{j}"].t, True)
+            if any(ch.isdigit() for ch in sh):
+                # literal exponents enter the computation as (inexact) double constants: compare to 1e-9 relative
+                eps = z3.RealVal("1/1000000000")
+                av = z3.If(v >= 0, v, -v)
+                conj.append(z3.And(g - v <= eps * av, v - g <= eps * av))
+            else:
+                conj.append(g == v)
+        flat = [c for r in range(len(skel["shapes"])) for c in self._bytes(skel, x, r)]
+        conj += [TI(a) == (b.t if hasattr(b, "t") else b) for a, b in zip(out["input_after"], flat)]
+        return z_and(conj)
+
+    def oracle(self, skel, cx, cout):
+        if isinstance(cout, Exc):
+            return f"raised {cout}"
+        texts = [bytes(self._bytes(skel, cx, r)).decode() for r in range(len(skel["shapes"]))]
+        for r, sh in enumerate(skel["shapes"]):
+            exp = float(self._value(sh, lambda j: cx[f"c{r}_{j}"], False))
+            got = float(cout["values"][r])
+            if abs(got - exp) > 1e-9 * max(1e-300, abs(exp)):
+                return f"str_to_float({texts})[{r}] = {got!r}, the text {texts[r]!r} means {exp!r}"
+        if cout["input_after"] != cout["input_before"]:
+            return f"str_to_float modified its argument {texts}: bytes {cout['input_before']} -> {cout['input_after']}"
+        return None
+
+
 def x_is(V, name, val):
     return V.vars[name].t == val
 
@@ -212,4 +347,4 @@ class DigitColumns(_Delimited):
         return out
 
 
-HARNESSES = [IntsToStrings(), StrToInt(), DigitColumns()]
+HARNESSES = [IntsToStrings(), StrToInt(), StrToFloat(), DigitColumns()]
